@@ -164,18 +164,21 @@ def localized_names(seed, quick):
     if quick:
         langs = [langs[(seed * 3 + j) % len(langs)] for j in range(3)] + ["fr", "ru"]
     out = []
+    from symx import runner
+    known = set()
+    for k in runner.load_known():
+        if k["id"] == "C05-vocabulary-conflicts" and k.get("status", "open") == "open":
+            known = {(e["locale"], e["name"]) for e in k.get("entries", [])}
+    english = set(C.EN_MONTHS) | set(C.EN_MON) | {"sept"}
     for lang in langs:
-        info = C.language_info(lang)
-        owners = {}
-        for mi, key in enumerate(C.EN_MONTHS):
-            for name in info.get(key, []):
-                owners.setdefault(name.lower(), set()).add(("m", mi))
-        for k in list(C.EN_DAYS) + ["decade", "year", "month", "week", "day", "hour", "minute", "second", "ago", "in", "am", "pm"]:
-            for name in info.get(k, []):
-                owners.setdefault(name.lower(), set()).add(("x", k))
-        for name, own in sorted(owners.items()):
-            if len(own) == 1 and list(own)[0][0] == "m" and name.isalpha() and len(name) > 2:
-                out.append((lang, list(own)[0][1] + 1, name))
+        for name, ms in sorted(C.meanings(C.combined_info(lang)).items()):
+            if len(ms) != 1:
+                continue
+            kind, val = list(ms)[0]
+            # single-meaning month names only; a name that is also an English month name is read by the raw-string
+            # format match (which the property says wins); names of the open C05 finding have the same root cause
+            if kind == "month" and name.isalpha() and len(name) > 2 and name not in english and (lang, name) not in known:
+                out.append((lang, val, name))
     if quick:
         out = [out[(seed * 11 + 13 * j) % len(out)] for j in range(8)] if out else []
     return out
